@@ -48,7 +48,14 @@ func runC07(c *core.Ctx) *core.Outcome {
 	cfg.ResetOnEmpty = t.Chance(1, 6)
 	var a *app.App
 	exs := examples.All()
-	if len(exs) > 0 && t.Chance(1, 6) {
+	deep := 0
+	if t.Chance(1, 80) {
+		// a session that keeps descending: resumed at every depth up to the limit the library enforces
+		a = deepApp(t)
+		deep = []int{127, 126, 100, 60}[t.Weighted(3, 2, 1, 1)]
+		cfg.OutputSize = 0
+		o.Probes["deep_run"]++
+	} else if len(exs) > 0 && t.Chance(1, 6) {
 		// one of the repository's example applications (assembled with the real assembler)
 		ex := exs[t.Int(len(exs))]
 		a = ex.App
@@ -65,6 +72,7 @@ func runC07(c *core.Ctx) *core.Outcome {
 		maxReq = 24
 	}
 	nreq := t.Range(2, maxReq)
+	nreq += deep
 	dbStack := t.Chance(1, 4)
 
 	wl := world.New(a, cfg)
@@ -101,6 +109,13 @@ func runC07(c *core.Ctx) *core.Outcome {
 				cur = p[len(p)-1]
 			}
 			in = genInput(t, a, cur, 2)
+			if i <= deep {
+				in = []byte("1")
+			} else if deep > 0 && string(in) == "1" {
+				if p, _ := L.Position(); len(p) >= 128 {
+					in = []byte("0") // state.MaxLevel entries: the library refuses to go deeper
+				}
+			}
 			if cfg.ResetOnEmpty && t.Chance(1, 4) {
 				in = []byte{}
 				o.Probes["empty_input_with_reset_on_empty"]++
